@@ -79,7 +79,11 @@ def finish(ctx: Ctx, t0: float, seed: int, out_dir: Optional[str] = None, quiet:
     """Print the verdict, write evidence + replay files, return the exit code."""
     out_dir = out_dir or os.path.join(VERIF, 'evidence')
     os.makedirs(out_dir, exist_ok=True)
-    ctx.check_floors()
+    floor_error = None
+    try:
+        ctx.check_floors()
+    except AnalysisError as e:
+        floor_error = e          # a violation found elsewhere is reported first (exit 1); without one the unmet floor aborts the run (exit 2)
     known = load_known()
     listed = {(k['property'], k['rule'], k['key']): k for k in known.get('known', [])}
     unlisted = []
@@ -104,6 +108,10 @@ def finish(ctx: Ctx, t0: float, seed: int, out_dir: Optional[str] = None, quiet:
             print(f"  {v['file']}:{v['line']}: [{v['rule']}] {v['key']}: {v['msg']}")
         print(f'VIOLATION property={ctx.prop} replay={path}')
         code = 1
+    if floor_error is not None:
+        if not unlisted:
+            raise floor_error
+        print(f'  (also: {floor_error})')
     nob = len(ctx.obligations)
     constructs = set()
     for r in ctx.rules.values():
